@@ -111,6 +111,11 @@ impl TomlConverter {
 
     fn write(&self, v: &Val, w: &mut dyn Write) -> ConvertResult {
         let toml_val = self.convert_value(v)?;
+        // A TOML document is a table; anything else has no valid rendering.
+        if !toml_val.is_table() {
+            let err = SimpleError::new("Toml outputs must be a Tuple");
+            return Err(Box::new(err));
+        }
         let toml_bytes = toml::ser::to_string_pretty(&toml_val)?;
         write!(w, "{}", toml_bytes)?;
         Ok(())
